@@ -337,6 +337,8 @@ class Recompile(Contract):
             return ("C06", "C11")
         if "pipeline-as-documented" in name:
             return ("C14", "C09", "C13", "C07")
+        if name.startswith("ensures.switches-completely") or name.startswith("ensures.no-op") or name.startswith("ensures.invariant"):
+            return ("C11", "C01")
         if "deterministic" in name or "no-global" in name:
             return ("C01", "C11", "C17")
         if "writes-only" in name:
